@@ -186,15 +186,15 @@ def partitions(tier, seed):
                           params=dict(comma=comma, layouts=[lo, hi], hole=0, concrete=True, steps=2), budget=70 if q else 1800, reach=[],
                           bounds="layouts %d..%d, every pair of edit operations" % (lo, hi - 1)))
         # (b) one symbolic word (and symbolic new word), operation fixed per partition
-        for lo in range(0, len(lays), 2 if q else 1):
-            hi = min(len(lays), lo + (2 if q else 1))
+        for lo in range(0, len(lays), 2):
+            hi = min(len(lays), lo + 2)
             for op in range(5):
                 if q and (lo // 2 + op) % 5:
                     continue
-                for hole in ((0,) if q else (0, 1, 2)):
-                    for wlen, nlen in (((1, 1),) if q else ((1, 1), (2, 1), (1, 2), (2, 2))):
+                for hole in ((0,) if q else (0, 1)):
+                    for wlen, nlen in (((1, 1),) if q else ((1, 1), (2, 2))):
                         P.append(dict(name="%s/sym/lay%d-%d/op%d/hole%d/w%d-n%d" % (nm, lo, hi, op, hole, wlen, nlen), harness="h_list",
                                       params=dict(comma=comma, layouts=[lo, hi], hole=hole, wlen=wlen, nlen=nlen, steps=1, op=op),
-                                      budget=60 if q else 1500, reach=[],
+                                      budget=60 if q else 600, reach=[],
                                       bounds="layouts %d..%d, operation %d, word %d symbolic (%d chars), new word symbolic (%d chars)" % (lo, hi - 1, op, hole, wlen, nlen)))
     return P
